@@ -155,26 +155,47 @@ class Replay:
 class LineReplay(Replay):
     """One preemption at an arbitrary source line: thread 0 is parked before the k-th line it executes inside the
     pose_format package (any file, any function), thread 1 then runs (untraced) until it finishes or finds the lock
-    held, thread 0 resumes and finishes, thread 1 finishes.  k = None: never park (used to count the lines)."""
+    held, thread 0 resumes and finishes, thread 1 finishes.  k = None: never park (used to count the lines).
+    opcodes=True: the unit is one bytecode instead of one line (sys.settrace with f_trace_opcodes), so two accesses to shared
+    state written in ONE statement can be separated as the thread model separates them."""
 
-    def __init__(self, k, pkgdir):
+    def __init__(self, k, pkgdir, opcodes=False):
         super().__init__(2, {}, None)
-        self.k, self.pkgdir, self.nlines = k, pkgdir, 0
+        self.k, self.pkgdir, self.nlines, self.opcodes = k, pkgdir, 0, opcodes
+        self.hot, self._hot_code = [], {}
+
+    def is_hot(self, frame):
+        """does this function name a module-level mutable container (list / dict / set / bytearray) - state that every thread of
+        the process shares?  (the counting run marks the bytecodes executed in such functions; the search samples them first)"""
+        co = frame.f_code
+        h = self._hot_code.get(co)
+        if h is None:
+            g = frame.f_globals
+            h = any(isinstance(g.get(n), (list, dict, set, bytearray)) for n in co.co_names)
+            self._hot_code[co] = h
+        return h
 
     def tracer(self, t):
         if t != 0:
             return None
+        unit = "opcode" if self.opcodes else "line"
 
         def local(frame, event, arg):
-            if event == "line":
+            if event == unit:
                 self.nlines += 1
+                if self.k is None and self.opcodes and self.is_hot(frame):
+                    self.hot.append(self.nlines)
                 if self.nlines == self.k:
                     self.at[0] = (os.path.basename(frame.f_code.co_filename), frame.f_code.co_name, frame.f_lineno)
                     self.park(0)
             return local
 
         def glob(frame, event, arg):
-            return local if frame.f_code.co_filename.startswith(self.pkgdir) else None
+            if not frame.f_code.co_filename.startswith(self.pkgdir):
+                return None
+            if self.opcodes:          # finer than lines: the thread can be parked between two bytecodes of ONE statement
+                frame.f_trace_opcodes = True
+            return local
         return glob
 
     def run(self, fns):
@@ -232,6 +253,10 @@ def file_table():
          "C": mk_file(["cccccccc0", "cccccccc1", "cccccccc2"], seed=6), "Clong": mk_file(["cccccccc0", "cccccccc1", "cccccccc2"], seed=7, frames=30),
          "D": mk_file(["d"], seed=8), "E": mk_file(["e0", "e1"], seed=9, fmt="XYZC"),
          "Xh": A[:30], "Xb": A[:len(A) - 7], "Z": b""}
+    # strings of EVERY length up to 6 / up to 10: whatever the library keeps per string length (struct formats, decoders) is
+    # exercised at consecutive lengths, and the longer file asks for lengths the shorter one never needs
+    t["S"] = mk_file(["s" * k for k in range(1, 7)], seed=10)
+    t["T"] = mk_file(["t" * k for k in range(1, 11)], seed=11)
     return t
 
 
@@ -256,7 +281,11 @@ class C18(common.Prop):
             "shorter, malformed - as bytes, as streams and as window reads of streams, memo initially empty or warm; for every pair "
             "all line-level schedules with <= 2 (thorough <= 3) preemptions, 3 readers sampled; plus, judged by the oracle only, one preemption "
             "before every (quick: 70 sampled per pair and order) source line of pose_format executed inside Pose.read, cold memo, "
-            "6 pairs x 2 orders; one case = one schedule; "
+            "7 pairs x 2 orders, and one preemption before a sampled BYTECODE (40 per pair and order; thorough 700) of the same "
+            "reads (sys.settrace with f_trace_opcodes), plus every bytecode executed inside a function that names a module-level "
+            "list / dict / set / bytearray (none on the read path of the library as it stands); a quarter "
+            "of the line cases and a third of the bytecode cases run in a freshly imported package (first-use races on lazily built "
+            "module state); one case = one schedule; "
             "non-trivial = the first switch preempts a thread that is certainly still inside the memo code (first segment < 6 line "
             "steps); distinct by content hash")
     TRUSTED = ["Coq 8.16.1 kernel (vm_compute for the refutation witnesses)", "harness/translate_c18.py (fail-closed ast translator)",
@@ -264,8 +293,8 @@ class C18(common.Prop):
                "harness/c18.py replay scheduler (sys.settrace + baton, CoopLock wrapper around the real lock)"]
     ASSUMPTIONS = ["hashlib.md5 is injective on the compared header slices (the model's hash is the slice)",
                    "CPython executes one thread at a time (GIL) and each attribute load/store of a class attribute is atomic",
-                   "CPython may switch threads between bytecodes; the replay scheduler switches only at line events - the model's "
-                   "step (one access) refines both, the replayed schedules cover line granularity only",
+                   "CPython may switch threads between bytecodes; the multi-preemption replay scheduler switches at line events, the "
+                   "one-preemption search also between two bytecodes of one statement - the model's step (one access) refines both",
                    "BytesIOReader threads: the thread model's result is (header, body offset); the body is covered by "
                    "isolated_stream_body_partial (C03's reader simulation, forward direction); the oracle compares the whole pose "
                    "whenever the job's solo result does not itself depend on what the memo holds (always, since the F3 repair)"]
@@ -306,6 +335,11 @@ class C18(common.Prop):
         self.solo_cache = {}
         import pose_format
         self.pkgdir = os.path.dirname(os.path.abspath(pose_format.__file__)) + os.sep
+        # CPython 3.12 delivers no 'opcode' events to the first frame on which f_trace_opcodes is switched on in a process (the
+        # instrumentation takes effect from the next frame on): switch it on once here, on a throw-away read, so that every counting
+        # and replay run below sees all of them
+        for _ in range(2):
+            LineReplay(None, self.pkgdir, opcodes=True).run([lambda: self.Pose.read(self.files["A"])])
 
     # ---- cases
     def configs(self, rng, tier):
@@ -366,13 +400,44 @@ class C18(common.Prop):
     # for shared state the thread model does not know about)
     LINE_PAIRS = [(("A", "bytes", None), ("A2", "bytes", None)), (("A", "bytes", None), ("C", "bytes", None)),
                   (("C", "stream", None), ("D", "stream", None)), (("Along", "stream", {"end_frame": 2}), ("Clong", "stream", {"start_frame": 1, "end_frame": 5})),
-                  (("Along", "stream", {"end_frame": 3}), ("A2", "bytes", None)), (("E", "bytes", None), ("B", "stream", {"end_frame": 1}))]
+                  (("Along", "stream", {"end_frame": 3}), ("A2", "bytes", None)), (("E", "bytes", None), ("B", "stream", {"end_frame": 1})),
+                  (("T", "bytes", None), ("S", "bytes", None))]
 
-    def count_lines(self, case):
+    def count_lines(self, case, opcodes=False, hot=False):
         self.Cache.clear_cache()
-        rp = LineReplay(None, self.pkgdir)
+        rp = LineReplay(None, self.pkgdir, opcodes=opcodes)
         rp.run([self.open_job(case, case["jobs"][0])])
-        return rp.nlines
+        return (rp.nlines, rp.hot) if hot else rp.nlines
+
+    class ColdModules:
+        """the pose_format package imported afresh for the duration of one case: every piece of module- or class-level state that
+        the library builds lazily (tables grown on demand, locks or caches created on first use) is in its initial state, so a race
+        on its FIRST use can be scheduled; the modules the rest of the check uses are put back afterwards"""
+
+        def __init__(self, prop):
+            self.prop = prop
+
+        def __enter__(self):
+            p = self.prop
+            self.saved = {k: m for k, m in sys.modules.items() if k == "pose_format" or k.startswith("pose_format.")}
+            self.old = (p.Pose, p.Cache)
+            for k in self.saved:
+                del sys.modules[k]
+            try:
+                from pose_format import Pose as P2
+                from pose_format.pose_header import PoseHeaderCache as C2
+                p.Pose, p.Cache = P2, C2
+            except Exception:
+                self.__exit__()
+                raise
+            return self
+
+        def __exit__(self, *a):
+            p = self.prop
+            for k in [k for k in sys.modules if k == "pose_format" or k.startswith("pose_format.")]:
+                del sys.modules[k]
+            sys.modules.update(self.saved)
+            p.Pose, p.Cache = self.old
 
     def line_cases(self, rng, tier):
         budget = 70 if tier == "quick" else None           # k values per (pair, order); thorough: every line
@@ -384,8 +449,29 @@ class C18(common.Prop):
                 ks = list(range(1, n + 1))
                 if budget is not None and n > budget:
                     ks = sorted(rng.sample(ks, budget))
-                for k in ks:
-                    yield dict(base, k=k, lines=n)
+                for i, k in enumerate(ks):
+                    yield dict(base, k=k, lines=n, **({"cold": True} if i % 4 == 3 else {}))
+                # the same with one BYTECODE as the unit (a sample: a read executes thousands)
+                nop, hot = self.count_lines(base, opcodes=True, hot=True)
+                kso = list(range(1, nop + 1))
+                bo = 40 if tier == "quick" else 700
+                if nop > bo:
+                    kso = sorted(rng.sample(kso, bo))
+                for i, k in enumerate(kso):
+                    # every third: in a freshly imported package (first-use races), the others in the warm process
+                    yield dict(base, k=k, lines=nop, gran="opcode", **({"cold": True} if i % 3 == 0 else {}))
+                # bytecodes executed inside functions that name a module-level list / dict / set / bytearray (state shared by all
+                # threads; the library as it stands has none on the read path): every one of them (up to a cap), in a freshly
+                # imported package - first use - and, every other one, in the warm process too
+                with self.ColdModules(self):
+                    nopc, hotc = self.count_lines(base, opcodes=True, hot=True)
+                cap = 300 if tier == "quick" else 3000
+                if len(hotc) > cap:
+                    hotc = sorted(rng.sample(hotc, cap))
+                for i, k in enumerate(hotc):
+                    yield dict(base, k=k, lines=nopc, gran="opcode", cold=True, hot=True)
+                for k in hot[:cap:2]:
+                    yield dict(base, k=k, lines=nop, gran="opcode", hot=True)
 
     @staticmethod
     def lengths(p, tier, rng):
@@ -398,7 +484,7 @@ class C18(common.Prop):
 
     def features(self, case):
         if case.get("mode") == "line":
-            return ("one-preemption-at-any-line", ",".join("%s%s" % (j["kind"][0], "w" if j["args"] else "") for j in case["jobs"]),
+            return ("one-preemption-at-any-" + case.get("gran", "line") + ("-cold-modules" if case.get("cold") else ""), ",".join("%s%s" % (j["kind"][0], "w" if j["args"] else "") for j in case["jobs"]),
                     "same-header" if {j["f"] for j in case["jobs"]} <= {"A", "A2", "Along"} else "diff")
         kinds = ",".join("%s%s" % (j["kind"][0], "w" if j["args"] else "") for j in case["jobs"])
         fs = [j["f"] for j in case["jobs"]]
@@ -455,8 +541,14 @@ class C18(common.Prop):
 
     def run_impl_line(self, case):
         solos = [self.solo(case, j, memo="") for j in case["jobs"]]
+        if case.get("cold"):
+            with self.ColdModules(self):
+                return self._run_impl_line(case, solos)
+        return self._run_impl_line(case, solos)
+
+    def _run_impl_line(self, case, solos):
         self.Cache.clear_cache()
-        rp = LineReplay(case["k"], self.pkgdir)
+        rp = LineReplay(case["k"], self.pkgdir, opcodes=case.get("gran") == "opcode")
         orig = getattr(self.Cache, self.lock_attr, None) if self.lock_attr else None
         if orig is not None:
             setattr(self.Cache, self.lock_attr, CoopLock(orig, rp))
@@ -467,6 +559,7 @@ class C18(common.Prop):
                 setattr(self.Cache, self.lock_attr, orig)
         th = [self.observe(rp.res[t], None) for t in range(2)]
         case["_threads"], case["_solos"], case["_where"] = th, solos, rp.at[0]
+        case["_after"] = self.aftermath(case) if complete else None
         return {"complete": complete, "threads": th, "preempted_at": rp.at[0]}
 
     def run_impl(self, case):
@@ -581,6 +674,13 @@ class C18(common.Prop):
                     return {"what": "thread %d (file %s) returns %s, alone %s, when thread 0 is preempted once before %s and the other read "
                                     "runs meanwhile" % (t, case["jobs"][t]["f"], "a different pose" if a["res"][0] == "ok" else "an exception",
                                                         "a pose" if s["res"][0] == "ok" else "an exception", w),
+                            "thread": t, "kind": "line", "preempted_at": list(w) if w else None}
+            for t, (a, s) in enumerate(zip(case.get("_after") or [], solos)):
+                if a["res"] != s["res"]:
+                    w = case.get("_where")
+                    return {"what": "after the two reads finished (thread 0 preempted once before %s), a sequential read of file %s returns %s "
+                                    "where the same read alone returns %s: the memo they left behind is inconsistent"
+                                    % (w, case["jobs"][t]["f"], a["res"][0], s["res"][0]),
                             "thread": t, "kind": "line", "preempted_at": list(w) if w else None}
             return None
         for t, (a, s) in enumerate(zip(ths, solos)):
